@@ -1,6 +1,7 @@
 package rules
 
 import (
+	"fmt"
 	"strings"
 
 	"golang.org/x/tools/go/ssa"
@@ -86,6 +87,48 @@ func ruleReportedRoute(c *Ctx, rule string) {
 	})
 	if nCall == 0 {
 		c.R.Add(rule, c.fk(hf), "user-call(ctx,handler)=lookup", c.P.Pos(hf.Pos()), false, "no call of the user's CallFunc after the lookup")
+	}
+	// the node Tree.Handler reports is what the search returned (or the root for "*" / ""), nothing remembered on the side
+	th := a.TreeHandler
+	fam := scanners(c)
+	var nodeLeafOK func(v ssa.Value, depth int) (bool, string)
+	nodeLeafOK = func(v ssa.Value, depth int) (bool, string) {
+		if depth > 6 {
+			return false, "…"
+		}
+		switch x := v.(type) {
+		case *ssa.MakeInterface:
+			return nodeLeafOK(x.X, depth+1)
+		case *ssa.ChangeInterface:
+			return nodeLeafOK(x.X, depth+1)
+		case *ssa.Const:
+			return x.Value == nil, "constant"
+		case *ssa.Phi:
+			for _, e := range x.Edges {
+				if ok, why := nodeLeafOK(e, depth+1); !ok {
+					return false, why
+				}
+			}
+			return true, ""
+		case *ssa.Call:
+			if g := an.StaticCallee(&x.Call); g != nil && fam[an.Origin(g)] {
+				return true, ""
+			}
+			return false, c.O.Of(v).String()
+		case *ssa.UnOp:
+			if base, isRoot := fieldLoadOf(v, a.TreeT, a.FRootNode); isRoot && base == "recv" {
+				return true, ""
+			}
+			return false, c.O.Of(v).String()
+		}
+		return false, c.O.Of(v).String()
+	}
+	for i, r := range an.Returns(th) {
+		if len(r.Results) == 0 {
+			continue
+		}
+		ok, why := nodeLeafOK(an.ReturnValue(r, 0), 0)
+		c.R.Add(rule, c.fk(th), fmt.Sprintf("return#%d/node=search-result-or-root", i), c.pos(r), ok, ifelse(ok, "the node reported is the value the depth-first search returned (or the root node)", "the node reported is "+why+", not the value the search returned: a node remembered while the search went on has lost the captures of its path when the search backtracked"))
 	}
 	// accessor pairs
 	for _, pr := range []struct{ set, get string }{{"types.(*Context).SetNode", "types.(*Context).Node"}, {"types.(*Context).SetRouterName", "types.(*Context).RouterName"}} {
